@@ -497,6 +497,22 @@ theorem pool_run_never_raises {cfg : Cfg} {w : Store} {p : Pool} {n : Nat} (pinv
     ∃ w' p' res, poolRun cfg w p = .ok (w', p', res) ∧ PoolReady cfg w' p' :=
   poolRun_succeeds pinv m rd
 
+/-- **a pool tick raises only at its gates.**  On a ready pool, with assignments built by the checked constructor in dependency order and distinct
+suspension requests, `ResourcePool.run_one_tick` either succeeds and leaves the pool ready for the next tick, or refuses its commands up front with
+one of the gate errors (no such / unsuspendable container, oversold CPU or RAM, wrong operator count), in a well-defined state.
+It never fails in the middle of a tick.  (`PoolReadyF`, `AsgsReady`: Proofs/Progress.lean.) -/
+theorem pool_tick_raises_only_at_the_gates {cfg : Cfg} {w : Store} {p : Pool} {n : Nat} {cm : Cmds}
+    (g : PoolGoodMem cfg p n) (rd : PoolReadyF cfg w p) (ha : AsgsReady w cm.asgs) (hs : cm.susp.Nodup)
+    (hnd : (ownP p ++ cm.asgs.flatMap (·.ops)).Nodup) :
+    (∃ w' p' n' res, poolTick cfg w p n cm = .ok (w', p', n', res) ∧ PoolReadyF cfg w' p') ∨
+    (∃ e st, poolTick cfg w p n cm = .error (e, some st) ∧ e.isGate = true) :=
+  poolTick_raises_only_at_the_gates g rd ha hs hnd
+
+/-- a fresh pool is ready (non-vacuity of the hypotheses above) -/
+theorem fresh_pool_ready (cfg : Cfg) (w : Store) (cpus ram : Nat) : PoolReadyF cfg w (Pool.fresh cpus ram) :=
+  ⟨⟨⟨by simp [Pool.fresh], by simp [Pool.fresh], by simp [ownP, own, Pool.fresh], by intro c hc; simp [Pool.fresh] at hc⟩,
+    by intro c hc; simp [Pool.fresh] at hc, by intro c hc; simp [Pool.fresh] at hc⟩, by intro c hc; simp [Pool.fresh] at hc⟩
+
 /-- **the naive scheduler and the `eudoxia init` starter never raise**: in any world whose pipelines list existing operators without repetition,
 a round returns a decision, whatever the queue, the results and the arrivals are -/
 theorem naive_round_never_raises (multi : Bool) (w : World) (st : Naive.St) (results : List Res) (newP : List Nat) (wf : w.WFP) :
